@@ -5,12 +5,12 @@ use serde_json::{json, Value};
 use std::collections::HashSet;
 
 pub fn run(tier: Tier, seed: u64, ev: &mut Evidence) -> Vec<Violation> {
-    let (n_g01, n_tpl, n_g05, n_g02) = match tier {
-        Tier::Quick => (500u64, 450u64, 300u64, 150u64),
-        Tier::Thorough => (16_000u64, 10_000u64, 10_000u64, 4_000u64),
+    let (n_g01, n_tpl, n_g05, n_g02, n_deep) = match tier {
+        Tier::Quick => (500u64, 450u64, 300u64, 150u64, 60u64),
+        Tier::Thorough => (16_000u64, 10_000u64, 10_000u64, 4_000u64, 1_500u64),
     };
     ev.rule = "workloads: G01 sessions, G05 continuation sessions, G02 scope skeletons and allocation-heavy templates (lists, vectors, strings+string->symbol, closures, \
-               continuations, eval, variadic/apply, deep recursion, heap growth, long procedures later redefined, promises); per workload \
+               continuations, eval, variadic/apply, deep recursion, heap growth, long procedures later redefined, promises) and deep live structures (car nesting, vector nesting, closure chains of depth 100..3000 around powers of two); per workload \
                3 collection schedules drawn from {every k (1..16), every instruction where affordable, Bernoulli 1/2 1/10 1/100, bursts \
                after CONS/CALL/CLOSURE/ENTER/TCALL/VARARG/VPUSHACC, production policy at random cadence, sparse}, each optionally also \
                between forms; oracles: twin VM with collections suppressed (value, failure, output, stack trace, instruction count per form) \
@@ -23,6 +23,7 @@ pub fn run(tier: Tier, seed: u64, ev: &mut Evidence) -> Vec<Violation> {
     v.extend(batch(Attribution::C03, seed, n_tpl, workload_templates, 3, ev, &mut distinct, &mut contexts, 1_000_000));
     v.extend(batch(Attribution::C03, seed, n_g05, workload_g05, 3, ev, &mut distinct, &mut contexts, 2_000_000));
     v.extend(batch(Attribution::C03, seed, n_g02, workload_g02, 3, ev, &mut distinct, &mut contexts, 3_000_000));
+    v.extend(batch(Attribution::C03, seed, n_deep, workload_deep, 3, ev, &mut distinct, &mut contexts, 4_000_000));
     ev.distinct_nontrivial = distinct.len() as u64;
     ev.extra.insert("distinct_contexts".into(), json!(contexts.len()));
     ev.extra.insert(
@@ -42,7 +43,8 @@ pub fn rerun(_tier: Tier, seed: u64, run: u64) -> Option<Violation> {
         0 => workload_g01,
         1 => workload_templates,
         2 => workload_g05,
-        _ => workload_g02,
+        3 => workload_g02,
+        _ => workload_deep,
     };
     one_run(Attribution::C03, seed, run, workload, 3).violation
 }
